@@ -76,24 +76,24 @@ const (
 )
 
 var refGrammar = map[string]string{
-	"program":    `and(and(any{assert(not(` + rEOL + `)) => block}, ` + rEOLS1 + `), drop(<EOF>))`,
-	"block":      `choose{assert("{") => mkBlock(surby(and("{", ` + rEOLS1 + `), statements, and(` + rEOLS1 + `, "}"))) | ok => statement}`,
-	"statements": `and(statement, any{assert(and(` + rEOLS1 + `, not("}"))) => and(` + rEOLS1 + `, statement)})`,
-	"statement":  `choose{assert("if") => conditional | assert("while") => whileLoop | assert("for") => forLoop | assert("return") => returning | assert("yield") => yield | assert(and(varName, "=")) => assignment | ok => expression}`,
-	"assignment": `mkAssign(and(and(varName, "="), expression))`,
+	"program":     `and(and(any{assert(not(` + rEOL + `)) => block}, ` + rEOLS1 + `), drop(<EOF>))`,
+	"block":       `choose{assert("{") => mkBlock(surby(and("{", ` + rEOLS1 + `), statements, and(` + rEOLS1 + `, "}"))) | ok => statement}`,
+	"statements":  `and(statement, any{assert(and(` + rEOLS1 + `, not("}"))) => and(` + rEOLS1 + `, statement)})`,
+	"statement":   `choose{assert("if") => conditional | assert("while") => whileLoop | assert("for") => forLoop | assert("return") => returning | assert("yield") => yield | assert(and(varName, "=")) => assignment | ok => expression}`,
+	"assignment":  `mkAssign(and(and(varName, "="), expression))`,
 	"conditional": `mkIf(and(and(and("if", expression), block), choose{"else" => block | ok => ok}))`,
-	"whileLoop":  `mkWhile(and(and("while", expression), block))`,
-	"forLoop":    `and(and(and(and("for", mkList(and(varName, any{drop(",") => varName}))), "<-"), mkList(and(expression, any{drop(",") => expression}))), block)`,
-	"returning":  `mkReturn(and("return", expression))`,
-	"yield":      `mkYield(and("yield", expression))`,
-	"expression": `boolOp`,
-	"atom":       `choose{assert(and(` + rPARAM + `, "->")) => function | assert(and(varName, "(")) => call | <FloatLit> => ok | <IntLit> => ok | "true" => ok | "false" => ok | <StringLit> => ok | assert("[") => arrayLit | assert("(") => paren | ok => varName}`,
-	"paren":      `surby("(", expression, ")")`,
-	"arrayLit":   `mkList(surby(and("[", ` + rEOLS + `), sepby(expression, and(",", ` + rEOLS + `)), "]"))`,
-	"function":   `mkFunction(and(and(` + rPARAM + `, "->"), block))`,
-	"call":       `mkFCall(and(varName, arguments))`,
-	"arguments":  `mkList(surby("(", sepby(expression, ","), ")"))`,
-	"index":      `mkIndex(and(atom, any{assert("[") => mkLeftChain(surby("[", and(expression, choose{":" => expression | ok => ok}), "]"))}))`,
+	"whileLoop":   `mkWhile(and(and("while", expression), block))`,
+	"forLoop":     `and(and(and(and("for", mkList(and(varName, any{drop(",") => varName}))), "<-"), mkList(and(expression, any{drop(",") => expression}))), block)`,
+	"returning":   `mkReturn(and("return", expression))`,
+	"yield":       `mkYield(and("yield", expression))`,
+	"expression":  `boolOp`,
+	"atom":        `choose{assert(and(` + rPARAM + `, "->")) => function | assert(and(varName, "(")) => call | <FloatLit> => ok | <IntLit> => ok | "true" => ok | "false" => ok | <StringLit> => ok | assert("[") => arrayLit | assert("(") => paren | ok => varName}`,
+	"paren":       `surby("(", expression, ")")`,
+	"arrayLit":    `mkList(surby(and("[", ` + rEOLS + `), sepby(expression, and(",", ` + rEOLS + `)), "]"))`,
+	"function":    `mkFunction(and(and(` + rPARAM + `, "->"), block))`,
+	"call":        `mkFCall(and(varName, arguments))`,
+	"arguments":   `mkList(surby("(", sepby(expression, ","), ")"))`,
+	"index":       `mkIndex(and(atom, any{assert("[") => mkLeftChain(surby("[", and(expression, choose{":" => expression | ok => ok}), "]"))}))`,
 }
 
 func (e *eng) g5() {
